@@ -32,6 +32,9 @@ func (x *tr) autoInline(ce *ast.CallExpr) (val, bool) {
 	if x.autoDepth >= maxAutoInlineDepth || !round3c {
 		return val{}, false
 	}
+	if c, _ := x.resolveCallee(ce); c != nil && !inlinable(c) {
+		return val{}, false
+	}
 	x.autoMode = true
 	defer func() { x.autoMode = false }()
 	return x.inline(ce)
@@ -139,6 +142,9 @@ func (x *tr) expandCall(ce *ast.CallExpr, keepReturns bool) (*expansion, bool) {
 	}
 	callee, recvArg := x.resolveCallee(ce)
 	if callee == nil {
+		return nil, false
+	}
+	if !inlinable(callee) {
 		return nil, false
 	}
 	hasDefer := false
@@ -559,4 +565,64 @@ func (x *tr) autoInlineAssign(s *ast.AssignStmt, tail []ast.Stmt, rest [][]ast.S
 	x.autoDepth++
 	defer func() { x.autoDepth-- }()
 	return x.exec(append(stmts, tail...), rest), true
+}
+
+// inlinable: inlining must preserve the meaning.  recover() only stops a panic when the DEFERRED function itself
+// calls it, so a helper that calls recover() is not the same as its body (moving recover() into a helper is a
+// real regression, not a refactoring); the same holds for functions that inspect their caller.
+func inlinable(callee *ast.FuncDecl) bool {
+	ok := true
+	ast.Inspect(callee.Body, func(n ast.Node) bool {
+		if ce, isCall := n.(*ast.CallExpr); isCall {
+			switch f := ce.Fun.(type) {
+			case *ast.Ident:
+				if f.Name == "recover" {
+					ok = false
+				}
+			case *ast.SelectorExpr:
+				if id, isId := f.X.(*ast.Ident); isId && id.Name == "runtime" && strings.HasPrefix(f.Sel.Name, "Caller") {
+					ok = false
+				}
+			}
+		}
+		return ok
+	})
+	return ok
+}
+
+// inlineAny: a callee listed in Inline, or - as a last resort - any same-package helper
+func (x *tr) inlineAny(ce *ast.CallExpr) (val, bool) {
+	if v, ok := x.inline(ce); ok {
+		return v, true
+	}
+	return x.autoInline(ce)
+}
+
+// errVarVal: a local variable that holds an error code (the result of an inlined helper): `return err`
+func (x *tr) errVarVal(e ast.Expr) (string, bool) {
+	if id, ok := unparen(e).(*ast.Ident); ok && round3c && x.vars[id.Name] == "error" {
+		return cname(id.Name), true
+	}
+	return "", false
+}
+
+// errNilCmp: `err != nil` / `err == nil` on such a variable
+func (x *tr) errNilCmp(e *ast.BinaryExpr) (val, bool) {
+	if !round3c || (e.Op != token.EQL && e.Op != token.NEQ) {
+		return val{}, false
+	}
+	a, b := unparen(e.X), unparen(e.Y)
+	if id, ok := a.(*ast.Ident); ok && id.Name == "nil" {
+		a, b = b, a
+	}
+	nl, ok := b.(*ast.Ident)
+	id, ok2 := a.(*ast.Ident)
+	if !ok || !ok2 || nl.Name != "nil" || x.vars[id.Name] != "error" {
+		return val{}, false
+	}
+	c := "(" + cname(id.Name) + " =? 0)%Z"
+	if e.Op == token.NEQ {
+		c = "(negb " + c + ")"
+	}
+	return val{coq: c, typ: "bool"}, true
 }
